@@ -928,6 +928,7 @@ def c15_oracle(sc):
     handed_out = set()         # stream ids send_request / push_request returned before the peer's GOAWAY was consumed
     clean = True
     polled_after_goaway = False
+    free_writes = True
     graceful_at = None
     gstate, gpayload = 0, None
     abrupt = False
@@ -938,6 +939,8 @@ def c15_oracle(sc):
     probes = []                # (step fed, payload) of PINGs fed after a not-yet-consumed GOAWAY
     answered = set()           # handles whose response head has been delivered
     for st in sc["trace"]:
+        if st["op"].get("op") == "write_mode":
+            free_writes = st["op"].get("mode") == "all"
         op = st["op"]
         o = op.get("op")
         res = st["res"]
@@ -1037,7 +1040,15 @@ def c15_oracle(sc):
                 increase_consumed = True
             # consumed while the connection stayed alive (a poll that ends the connection may have stopped reading earlier)
             if fed_goaway is not None and st["i"] > fed_goaway[0] and (res == "Pending" or isinstance(res, dict)):
-                polled_after_goaway = True
+                # the octets left the transport, but the connection task dispatches a frame only once what it owes (SETTINGS ACK,
+                # PONG, queued frames) has been accepted by the transport: with throttled writes the GOAWAY may still sit in the read
+                # buffer.  Take the statistics snapshot as the witness (send.max_stream_id lowered to the frame's last id).
+                sn_ = st.get("snap")
+                if sn_ and "send_max_stream_id" in sn_.get("conn", {}):
+                    if sn_["conn"]["send_max_stream_id"] <= fed_goaway[1]:
+                        polled_after_goaway = True
+                elif free_writes:
+                    polled_after_goaway = True
             if gstate == 3:
                 gstate = 4
         if o in ("send_request", "push_request") and isinstance(res, dict) and "sid" in res and not (fed_goaway is not None and polled_after_goaway):
